@@ -89,7 +89,34 @@ impl BuildJob<'_> {
     ) -> Result<Pin<Box<dyn Future<Output = i32> + 'a>>, RedoError> {
         let before_t = try_stat(self.t.as_path()).map_err(RedoError::opaque_error)?;
         debug_assert!(self.lock.is_owned());
-        let (is_target, dirty) = (self.should_build_func)(&mut ptx, &self.t)?;
+        let (is_target, dirty) = match (self.should_build_func)(&mut ptx, &self.t) {
+            Ok(x) => x,
+            Err(e) => {
+                // A request to stop with a specific exit code (for example, the
+                // target already failed during this run) finishes this job with
+                // that code.  It must not abort the whole run: with --keep-going
+                // the remaining targets still have to be built, and jobs that are
+                // already running still have to be waited for and recorded.
+                let mut code = None;
+                let mut next: Option<&(dyn std::error::Error + 'static)> = Some(&e);
+                while let Some(err) = next {
+                    next = err.source();
+                    if let Some(&RedoErrorKind::ImmediateExit(c)) =
+                        err.downcast_ref::<RedoError>().map(|err| err.kind())
+                    {
+                        code = Some(c);
+                        break;
+                    }
+                }
+                return match code {
+                    Some(code) => {
+                        log_err!("{}\n", e);
+                        Ok(Box::pin(future::ready(code)))
+                    }
+                    None => Err(e),
+                };
+            }
+        };
         match dirty {
             Dirtiness::Clean => {
                 // Target doesn't need to be built; skip the whole task.
